@@ -833,7 +833,7 @@ package state
 //@ modifies T.index
 
 //@ func ensureServiceTxn
-//@ props C07
+//@ props C07 C06
 //@ results rerr
 //@ requires svc != nil
 //@ ensures[node-must-exist] rerr == nil ==> old(nodeAt(node, svc.PeerName)) != nil
@@ -841,6 +841,7 @@ package state
 //@ ensures[instance-stored] rerr == nil ==> serviceAt(node, svc.ID, svc.PeerName) != nil
 //@ ensures[only-this-instance-written] forall k string :: T_services(k) == old(T_services(k)) || (T_services(k) != nil && T_services(k) == serviceAt(node, svc.ID, svc.PeerName))
 //@ ensures[nodes-and-checks-untouched] (forall k string :: T_nodes(k) == old(T_nodes(k))) && (forall k string :: T_checks(k) == old(T_checks(k)))
+//@ ensures[C06-writer-bumps-services-index] rerr == nil && serviceAt(node, svc.ID, svc.PeerName) != old(serviceAt(node, svc.ID, svc.PeerName)) ==> idxVal("services") >= serviceAt(node, svc.ID, svc.PeerName).ModifyIndex && idxVal("nodes") >= serviceAt(node, svc.ID, svc.PeerName).ModifyIndex
 //@ modifies T.services, T.index, svc.TaggedAddresses
 
 //@ pure checkAt(node string, id string, peer string) *structs.HealthCheck = T_checks(NodeCheckQuery{Node: node, CheckID: id, PeerName: peer})
